@@ -43,10 +43,21 @@ CoverSigs ==
   \cup {Sg(K("opq"), <<P("u8")>>, TRUE, r) : r \in {x \in RetTypes : WriteOK(x)}}
   \cup {Sg(K("none"), <<t>>, FALSE, P("bool")) : t \in {StructT(n) : n \in InStructs}}
 
+\* C10: every payload allowed in Option, in parameter and return position, in both spellings; pointer payloads;
+\* results over every combination of arms (incl. unit arms)
+Payload10 == {P(p) : p \in Prims} \cup {EnumT, StructT("Inner"), StructT("Wide"), StructT("Mix")}
+OptEncSigs ==
+  {Sg(K("opq"), <<OptT(s, t)>>, FALSE, UnitT) : s \in {"std", "dipl"}, t \in Payload10}
+  \cup {Sg(K("opq"), <<>>, FALSE, OptT(s, t)) : s \in {"std", "dipl"}, t \in Payload10 \cup {UnitT}}
+  \cup {Sg(K("opq"), <<K("optopq")>>, FALSE, r) : r \in {K("optopq"), K("optbox")}}
+  \cup {Sg(K("opq"), <<>>, FALSE, ResT(a, b)) : a \in ResOk, b \in ResErr}
+  \cup {Sg(K("none"), <<StructT("WOpt"), StructT("Brw")>>, FALSE, StructT("Os"))}
+
 VARIABLES sig, stage
 vars == <<sig, stage>>
 CONSTANTS Mode, MaxParams
 Init == IF Mode = "cover" THEN sig \in CoverSigs /\ stage = "done"
+        ELSE IF Mode = "optenc" THEN sig \in OptEncSigs /\ stage = "done"
         ELSE sig = Sg(K("none"), <<>>, FALSE, UnitT) /\ stage = "self"
 PickSelf == stage = "self" /\ \E sf \in SelfKinds : sig' = [sig EXCEPT !.self = sf] /\ stage' = "params"
 AddParam == stage = "params" /\ Len(sig.params) < MaxParams
